@@ -1042,3 +1042,39 @@ def fields_all_params(F, fs, code):
             elif r["field_problems"] or r["domain"] or not r["pieces"]:
                 probs.append("%s: %s" % (key, "; ".join(r["field_problems"]) or r["domain"] or "nothing compared"))
     return (not probs), ("; ".join(probs[:2]) or "exact fields verified on %d configurations (whole parameter range, both endiannesses)" % len(cfgs))
+
+
+# ---- parameterless value functions: every MIR assert decided on every value (replaces the E3 obligations + lemmas L6, L7) -------
+E7_COVERED = {
+    "vbyte.byte_len": ["vbyte.bytes"], "vbyte.bit_len": ["vbyte.bits"],
+    "vbyte.write_be": ["w.vbyte_be.be", "w.vbyte_be.le"], "vbyte.write_le": ["w.vbyte_le.be", "w.vbyte_le.le"],
+    "vbyte.io_write_be": ["w.vbyte_io_be"], "vbyte.io_write_le": ["w.vbyte_io_le"],
+    "omega.len": ["omega"], "omega.recursive_len": ["omega"],
+    "omega.write": ["w.omega.be", "w.omega.le"], "omega.recursive_write": ["w.omega.be", "w.omega.le"],
+}
+
+
+def run_domain_e7(chk, F, fs, tier, rule, keys):
+    """for the functions in `keys` (no parameter besides the value): the value-partition interpretation of the function on the whole
+    64-bit domain meets no failing assert, shift, index or unwrap on any value up to 2^64-2 (for VByte: up to 2^64-1)"""
+    jobs = {j[0]: j for j in len_jobs(tier) + writer_jobs(tier)}
+    need = sorted({k for key in keys for k in E7_COVERED[key]})
+    res = evaluate(F, fs, [jobs[k] for k in need])
+    sfx = "" if fs == "default" else "@" + fs
+    for key in keys:
+        prob = None
+        n = 0
+        for k in E7_COVERED[key]:
+            r = res[k]
+            if "unsupported" in r:
+                prob = "%s cannot be evaluated: %s" % (k, r["unsupported"])
+                break
+            cells = r["cells"]
+            top = U64MAX if key.startswith("vbyte") else U64MAX - 1
+            bad = [c for c in cells if c["status"] != "ok" and c["y0"] <= top]
+            if not covered(cells) or bad:
+                prob = "%s: %s" % (k, ("fails for values %s (%s)" % (fmt_cell(bad[0]), bad[0]["why"])) if bad else "cells do not tile the domain")
+                break
+            n += len(cells)
+        chk.expect(rule, "%s@u64|e7-domain%s" % (key, sfx), prob is None, "%s: %s" % (key, prob),
+                   sample={"fn": key, "cells": n, "method": "every MIR assert of the function (and its callees) decided on every cell of [0, 2^64-1]"})
